@@ -319,7 +319,12 @@ def run(ctx):
             _tie_failures(ctx, fam, fails)
             report_engine_failures(ctx, fam, [f for f in fails if f[1][1] != 1], known_ids, info)
             streams[fam] = info
+            binfo["cases"] = binfo.get("cases", 0) + st["runs"]
+            binfo["rejected"] = binfo.get("rejected", 0) + len(fails)
+            binfo["listed_known"] = binfo.get("listed_known", 0) + info.get("known", 0)
+        binfo["corpus"] = cinfo["cases"]
         streams["stream_b"] = binfo
+        cov["evaluations_stream_b"] = binfo.get("cases", 0) + cinfo["cases"]
     cov["evaluations"] = total
     cov["distinct_nontrivial"] = distinct
     cov["traces_validated_against_impl"] = sum(v.get("runs", 0) for k, v in streams.items() if isinstance(v, dict) and "runs" in v)
@@ -335,6 +340,9 @@ def run(ctx):
     cov["streams"] = streams
     cov["samples"] = samples[:4]
     close_pool()
+    ctx.assumptions.append("the auto-sync predicate is an arbitrary total boolean function of the path (Coq Section variable, no hypothesis on it); "
+                           "the runs register one of three shapes (none / by extension / below a folder)")
+    ctx.assumptions.append("request / un-request / listing calls and engine steps are executed by one thread, one at a time (thread safety is C15)")
     tb = list(TRUSTED) + ["axioms per theorem as printed by Print Assumptions: " +
                           (", ".join(cov.get("axioms_used", [])) or "none (closed under the global context)")]
     return ctx.finish(tb)
